@@ -362,12 +362,13 @@ theorem swallow_leak {α} {oc : Option Catch} {e : Exc} (h : covers oc e.cls = t
   | none => simp [covers] at h
   | some c => simp only [covers] at h; simp only [swallow, h, if_true]
 
-theorem good_seq {kind vc} (hin : GoodF (tryC E vc) (colC E vc))
+/-- the sequence loop for ANY good element pair (shared by `.seq kind c` and the list member of `.vol c`) -/
+theorem good_seqWith {t c} (exp kind : String) (hin : GoodF t c)
     (hT : coversAll (Facts.catches .seqTry) = true)
     (hC : coversAll (Facts.catches .seqCollect) = true) :
-    GoodF (tryC E (.seq kind vc)) (colC E (.seq kind vc)) := by
+    GoodF (seqTryWith t kind) (seqColWith exp t c kind) := by
   intro v
-  simp only [tryC, colC]
+  simp only [seqTryWith, seqColWith]
   cases hs : v.isSeq with
   | false => exact .inr ⟨rfl, _, rfl⟩
   | true =>
@@ -384,6 +385,47 @@ theorem good_seq {kind vc} (hin : GoodF (tryC E vc) (colC E vc))
         exact .inr ⟨rfl, _, rfl⟩
     · simp only [h3, h4, Outcome.bind_interrupt, Bool.not_false, if_true]
       exact .inr ⟨rfl, _, rfl⟩
+
+theorem good_seq {kind vc} (hin : GoodF (tryC E vc) (colC E vc))
+    (hT : coversAll (Facts.catches .seqTry) = true)
+    (hC : coversAll (Facts.catches .seqCollect) = true) :
+    GoodF (tryC E (.seq kind vc)) (colC E (.seq kind vc)) := by
+  intro v
+  simp only [tryC, colC]
+  exact good_seqWith _ kind hin hT hC v
+
+/-- the fast pass of `ValueOrList[T]`, in terms of the fast passes of `T` and of `List[T]`: the single-value
+reading first; the list reading only after `T` rejected the whole value -/
+theorem tryC_vol (c : Conv) (v : Val) :
+    tryC E (.vol c) v =
+      match tryC E c v with
+      | .ok x => .ok (.wrap "ValueOrList:val" x)
+      | .leak e => .leak e
+      | .interrupt => (tryC E (.seq "list" c) v).bind fun x => .ok (.wrap "ValueOrList:list" x) := by
+  simp only [tryC]
+  cases tryC E c v with
+  | ok x => rfl
+  | leak e => rfl
+  | interrupt =>
+    simp only []
+    cases seqTryWith (tryC E c) "list" v <;> rfl
+
+/-- `ValueOrList[T]`: the union loop over `conv(T)` and `conv(List[T])`, then an (injective, total) wrapper -/
+theorem good_vol {vc} (hin : GoodF (tryC E vc) (colC E vc))
+    (hT : coversAll (Facts.catches .seqTry) = true)
+    (hC : coversAll (Facts.catches .seqCollect) = true) :
+    GoodF (tryC E (.vol vc)) (colC E (.vol vc)) := by
+  intro v
+  simp only [tryC, colC, sumCol]
+  rcases hin v with ⟨x, h1, _⟩ | ⟨h1, e, h2⟩
+  · simp only [h1]
+    exact .inl ⟨_, rfl, trivial⟩
+  · simp only [h1, h2]
+    rcases good_seqWith (expected E (.seq "list" vc) false) "list" hin hT hC v with ⟨x, h3, _⟩ | ⟨h3, e', h4⟩
+    · simp only [h3]
+      exact .inl ⟨_, rfl, trivial⟩
+    · simp only [h3, h4]
+      exact .inr ⟨trivial, _, rfl⟩
 
 /-! ## Wrappers around one inner converter -/
 
